@@ -341,11 +341,19 @@ func finalDumpsDiffer(rr *RunResult) string {
 	return ""
 }
 
+func divergeMessage(d *divergence) string {
+	if d.NodeA == d.NodeB {
+		return fmt.Sprintf("node %d, restarted, has applied the log up to index %d again but holds a different keyspace than it held at that index before it was killed (step %d; - before, + after):\n%s",
+			d.NodeA, d.Index, d.Step, diffDumps(d.DumpA, d.DumpB))
+	}
+	return fmt.Sprintf("nodes %d and %d have both applied the log up to index %d but hold different keyspaces (step %d; - node %d, + node %d):\n%s",
+		d.NodeA, d.NodeB, d.Index, d.Step, d.NodeA, d.NodeB, diffDumps(d.DumpA, d.DumpB))
+}
+
 func judgeC07(sc *Scenario, rr *RunResult) (string, string) {
 	p := "C07"
 	if d := rr.Diverge; d != nil {
-		return p + "/replicas-diverge/" + d.Class, fmt.Sprintf("nodes %d and %d have both applied the log up to index %d but hold different keyspaces (step %d):\n%s",
-			d.NodeA, d.NodeB, d.Index, d.Step, diffDumps(d.DumpA, d.DumpB))
+		return p + "/replicas-diverge/" + d.Class, divergeMessage(d)
 	}
 	if m := noReplyFaultFree(sc, rr); m != "" {
 		return p + "/no-reply/fault-free", m
@@ -463,8 +471,7 @@ func judgeC08(sc *Scenario, rr *RunResult) (string, string) {
 		return p + "/liveness/" + runClass(rr), rr.Liveness
 	}
 	if d := rr.Diverge; d != nil {
-		return p + "/replicas-diverge/" + d.Class, fmt.Sprintf("nodes %d and %d have both applied the log up to index %d but hold different keyspaces:\n%s",
-			d.NodeA, d.NodeB, d.Index, diffDumps(d.DumpA, d.DumpB))
+		return p + "/replicas-diverge/" + d.Class, divergeMessage(d)
 	}
 	if m := finalDumpsDiffer(rr); m != "" {
 		return p + "/replicas-diverge-final/" + runClass(rr), m
@@ -509,8 +516,7 @@ func judgeC14(sc *Scenario, rr *RunResult) (string, string) {
 		return p + "/liveness/" + runClass(rr), rr.Liveness
 	}
 	if d := rr.Diverge; d != nil {
-		return p + "/replicas-diverge/" + d.Class, fmt.Sprintf("nodes %d and %d have both applied the log up to index %d but hold different keyspaces:\n%s",
-			d.NodeA, d.NodeB, d.Index, diffDumps(d.DumpA, d.DumpB))
+		return p + "/replicas-diverge/" + d.Class, divergeMessage(d)
 	}
 	if m := finalDumpsDiffer(rr); m != "" {
 		return p + "/replicas-diverge-final/" + runClass(rr), m
